@@ -274,6 +274,42 @@ func (w *world) step(i int, st simcore.Step) bool {
 		}
 		return true
 
+	case "equalize":
+		// find positions X, Y of one pool with X.upper == Y.lower and different liquidity; the larger one
+		// withdraws exactly the difference, so the shared tick keeps gross > 0 with net == 0
+		var pairs [][2]*refPos
+		all := w.sortedPos()
+		for _, x := range all {
+			for _, y := range all {
+				if x.pool == y.pool && x.upper == y.lower && !x.liq.Equal(y.liq) {
+					pairs = append(pairs, [2]*refPos{x, y})
+				}
+			}
+		}
+		if len(pairs) == 0 {
+			run.Event("equalize", "skip")
+			return true
+		}
+		pr := pairs[int(st.Arg(0))%len(pairs)]
+		big, small := pr[0], pr[1]
+		if big.liq.LT(small.liq) {
+			big, small = small, big
+		}
+		diff := big.liq.Sub(small.liq)
+		res := deliver(&cltypes.MsgWithdrawPosition{PositionId: big.id, Sender: n.Accts[big.owner].String(), LiquidityAmount: diff})
+		if !res.OK() {
+			return !run.Stop()
+		}
+		big.pool.ops++
+		big.clean, big.group = false, 0
+		{
+			_, sq, _ := w.poolState(n.Ctx, big.pool)
+			w.notePrecision(big.pool, decToRat(diff), sqrtAtTick(big.lower), bigDecToRat(sq))
+		}
+		big.liq = big.liq.Sub(diff)
+		run.Probe("shared-tick-net-zero-gross-positive")
+		return true
+
 	case "cspread", "cinc":
 		ps := w.pickPos(st.Arg(0))
 		if ps == nil {
